@@ -24,6 +24,17 @@ CLAIMED = {
          'collections as lists; isinstance/issubclass as membership in a finite class universe. No axioms (Closed under the global context).',
     technique='Coq proof (induction on fuel / lists, Permutation) + per-run model-vs-implementation correspondence by vm_compute',
     ref='DESIGN.md section 5, C14'),
+  'C15': dict(
+    text='A heap model of FrozenDict written from the code (cells flagged private/public; _prepare_freeze sharing the private dict of FrozenDict values and '
+         'copying plain dicts; unfreeze/tree_map copying; __getitem__ returning FrozenDict(v); copy, pop, pickle, module-level copy/pop) and a state machine in '
+         'which an adversary mutates every plain dict it holds. Proved for every operation sequence: the invariant "private cells hold leaves and private dicts only, '
+         'no plain-dict reference points into a FrozenDict", hence no API operation writes a private cell, no private cell leaks, and denote(fd) is constant '
+         'forever. Hash = xor fold is permutation invariant. struct.dataclass: flatten/unflatten round trip, leaves = data fields, static fields travel in the treedef, '
+         'replace changes only the named field. Tied to /repo per run: 480+ adaptive sequences of 24 real operations, flags and contents compared in Coq.',
+    note='Trusted: Coq kernel, vm_compute, harness, jaxcompat. Modelled not verified: jax.tree_util rebuilding of dict/FrozenDict nodes, pickle = __reduce__ + constructor, '
+         'Python locals not escaping (FrozenDict.pop). Leaves opaque. eq/hash of the real class checked by oracle under key reordering. No axioms.',
+    technique='Coq proof (state-machine invariant by induction over operation sequences, frame reasoning) + per-run model-vs-implementation correspondence by vm_compute',
+    ref='DESIGN.md section 5, C15'),
   'C16': dict(
     text='Theorems about a Gallina model of flatten_dict/unflatten_dict (written from the code: DFS with relative paths, insertion-ordered dict, the '
          'unflatten cursor loop) proved for every well-formed nested dict of any depth and every is_leaf: exact round trip with keep_empty_nodes, round trip up '
